@@ -382,6 +382,15 @@ impl BoundsAnalyzer {
             .insert(name, Bounds::from_variable_type(variable_type));
     }
 
+    /// Whether some derived range ran away to an infinite bound on the wrong
+    /// side. Every derived bound is implied by the constraints, so no value of
+    /// that variable, and hence no assignment at all, satisfies them.
+    pub(crate) fn has_unsatisfiable_range(&self) -> bool {
+        self.variable_bounds
+            .values()
+            .any(|bounds| bounds.lower == f64::INFINITY || bounds.upper == f64::NEG_INFINITY)
+    }
+
     pub(crate) fn apply_to_domain(&self, domain: &mut IndexMap<String, DomainVariable>) {
         for (name, variable) in domain {
             let Some(bounds) = self.variable_bounds.get(name).copied() else {
@@ -390,8 +399,8 @@ impl BoundsAnalyzer {
             if bounds.lower == f64::INFINITY || bounds.upper == f64::NEG_INFINITY {
                 // Propagation over contradictory constraints can run away to
                 // an infinite bound on the wrong side, which is no domain at
-                // all. Keep the declared domain: the original constraint rows
-                // report the infeasibility at solve time.
+                // all. Keep the declared domain: the linearizer states the
+                // infeasibility with an explicit row.
                 continue;
             }
             let tightened_type = match variable.get_type() {
